@@ -18,8 +18,8 @@
      originally coded is [iterate_old] in Regression_req.v);
    - fixes/08_req_unset_coin.patch: the compactor constructor draws its initial coin_ (parameter [ic] = true of the
      section [Sketch]; ic = false is the original "coin_(false)", whose bias is a theorem in Regression_req.v). *)
-From Coq Require Import ZArith List Bool Lia.
-From DS Require Import RunnerLib SortedView.
+From Coq Require Import ZArith List Bool Lia Floats Uint63.
+From DS Require Import RunnerLib SortedView FloatBits.
 Import ListNotations.
 Local Open Scope Z_scope.
 
@@ -332,6 +332,35 @@ Fixpoint add_comps (es : list (entry Z)) (cs : list comp) : list (entry Z) :=
 (* get_sorted_view() of a sketch whose level 0 has been sorted *)
 Definition sorted_view (s : req) : view Z := sv_finish Z (add_comps [] (comps s)).
 
+(* ---------- the published rank bounds (binary64, as coded: get_rank_lb / get_rank_ub / is_exact_rank / get_RSE) ---------- *)
+Definition fz (z : Z) : PrimFloat.float := PrimFloat.of_uint63 (Uint63.of_Z z).      (* exact for 0 <= z < 2^53 *)
+Definition fmax (a b : PrimFloat.float) : PrimFloat.float := if PrimFloat.ltb a b then b else a.     (* std::max *)
+Definition fmin (a b : PrimFloat.float) : PrimFloat.float := if PrimFloat.ltb b a then b else a.     (* std::min *)
+Definition rel_factor : PrimFloat.float := PrimFloat.sqrt (PrimFloat.div (bits_to_float 4587539518665278253) (fz 3)).  (* sqrt(0.0512 / INIT_NUM_SECTIONS) *)
+Definition fixed_factor : PrimFloat.float := bits_to_float 4590717258562350875.                       (* FIXED_RSE_FACTOR = 0.084 *)
+
+(* is_exact_rank: base_cap = k * INIT_NUM_SECTIONS, the part of level 0 that is never compacted *)
+Definition is_exact_rank (k levels : Z) (rank : PrimFloat.float) (n : Z) (h : bool) : bool :=
+  let base := k * 3 in
+  if (levels =? 1) || (n <=? base) then true else
+  let th := PrimFloat.div (fz base) (fz n) in
+  if h then PrimFloat.leb (PrimFloat.sub (fz 1) th) rank else PrimFloat.leb rank th.
+
+Definition rank_lb (k levels : Z) (rank : PrimFloat.float) (sd n : Z) (h : bool) : PrimFloat.float :=
+  if is_exact_rank k levels rank n h then rank else
+  let relative := PrimFloat.mul (PrimFloat.div rel_factor (fz k)) (if h then PrimFloat.sub (fz 1) rank else rank) in
+  let fixed := PrimFloat.div fixed_factor (fz k) in
+  fmax (PrimFloat.sub rank (PrimFloat.mul (fz sd) relative)) (PrimFloat.sub rank (PrimFloat.mul (fz sd) fixed)).
+
+Definition rank_ub (k levels : Z) (rank : PrimFloat.float) (sd n : Z) (h : bool) : PrimFloat.float :=
+  if is_exact_rank k levels rank n h then rank else
+  let relative := PrimFloat.mul (PrimFloat.div rel_factor (fz k)) (if h then PrimFloat.sub (fz 1) rank else rank) in
+  let fixed := PrimFloat.div fixed_factor (fz k) in
+  fmin (PrimFloat.add rank (PrimFloat.mul (fz sd) relative)) (PrimFloat.add rank (PrimFloat.mul (fz sd) fixed)).
+
+(* (double) j / (double) 2^t *)
+Definition dyadic (j t : Z) : PrimFloat.float := PrimFloat.div (fz j) (fz (2 ^ t)).
+
 (* ---------- line protocol ---------- *)
 Record reg := mkreg { r_kind : Z; r_sk : req; r_log : list Z }.   (* r_log: ghost, every accepted item (newest first) *)
 Definition st := list (Z * reg).
@@ -426,8 +455,13 @@ Definition step (s : st) (o e : line) : st * outline :=
       | Some g =>
           if rn (r_sk g) =? 0 then (s, (refused, [])) else
           let sk := sort_level_zero (r_sk g) in
+          let ri := PrimFloat.div (fz (rank_w sk x true)) (fz (rn sk)) in          (* get_rank(x, true) *)
+          let re := PrimFloat.div (fz (rank_w sk x false)) (fz (rn sk)) in
+          let lv := len (comps sk) in
+          let bnd := fun sd => [float_to_bits (rank_lb (rk sk) lv ri sd (rn sk) (hra sk));
+                                float_to_bits (rank_ub (rk sk) lv ri sd (rn sk) (hra sk))] in
           (with_sk s r g sk,
-           ([rank_w sk x true; rank_w sk x false; est sk],
+           ([rank_w sk x true; rank_w sk x false; est sk; float_to_bits ri; float_to_bits re] ++ bnd 1 ++ bnd 2 ++ bnd 3,
             [count_if (fun y => y <=? x) (r_log g); count_if (fun y => y <? x) (r_log g); len (r_log g)]))
       | None => (s, (refused, []))
       end
@@ -485,6 +519,21 @@ Definition step (s : st) (o e : line) : st * outline :=
       end
   | 20 :: k :: _ =>                                       (* section-size schedule of section size k (float32 check) *)
       if (4 <=? k) && (k <=? 65535) then (s, (schedule 64 (f32_of_Z k) k, [])) else (s, (refused, []))
+  | 21 :: k :: j :: t :: h :: n :: _ =>                   (* get_RSE(k, j / 2^t, hra, n) = get_rank_lb(k, 2, rank, 1, n, hra) *)
+      if (0 <=? k) && (k <=? 65535) && (0 <=? j) && (j <=? 2 ^ t) && (0 <=? t) && (t <=? 40) && (0 <=? n)
+      then (s, ([float_to_bits (rank_lb k 2 (dyadic j t) 1 n (negb (h =? 0)))], []))
+      else (s, (refused, []))
+  | 22 :: r :: j :: t :: sd :: _ =>                       (* get_rank_lower_bound / upper_bound (j / 2^t, sd) *)
+      match reg_get s r with
+      | Some g =>
+          if (0 <=? j) && (j <=? 2 ^ t) && (0 <=? t) && (t <=? 40) && (0 <=? sd) && (sd <=? 255) then
+            let sk := r_sk g in
+            let lv := len (comps sk) in
+            (s, ([float_to_bits (rank_lb (rk sk) lv (dyadic j t) sd (rn sk) (hra sk));
+                  float_to_bits (rank_ub (rk sk) lv (dyadic j t) sd (rn sk) (hra sk))], []))
+          else (s, (refused, []))
+      | None => (s, (refused, []))
+      end
   | 97 :: _ => (s, (ok, []))                              (* harness: report leftover scripted coins (F only) *)
   | 98 :: _ => (s, (ok, []))                              (* harness: scripted coins *)
   | 99 :: _ => (s, (ok, []))                              (* harness: reseed the coin source *)
